@@ -8,6 +8,10 @@ def make_plan(prop, rng, idx, tier, variant="asan"):
     """Returns (plan, config name).  Fault-free and fault-injecting
     configurations are separate batches, chosen by the run index."""
     if prop == "C12":
+        if idx % 25 == 11:
+            plan = hist.gen_sole_survivor(rng, "C12")
+            plan["knobs"]["scon_fatal"] = 0
+            return plan, "sole-survivor"
         faults = (idx % 5) >= 3
         damaged = (idx % 20) in (7, 17)
         plan = hist.gen_history(rng, "C12", faults=faults, reuse=(variant == "plain"), damaged=damaged)
@@ -17,6 +21,8 @@ def make_plan(prop, rng, idx, tier, variant="asan"):
         return plan, ("damaged-file" if damaged else "faults" if faults else "nofault")
     if prop == "C13":
         m = idx % 10
+        if idx % 20 == 13:
+            return hist.gen_sole_survivor(rng, "C13"), "sole-survivor"
         if variant == "vg":
             # under memcheck: no LSan, no bombs at huge cost; short histories
             plan = hist.gen_history(rng, "C13", faults=(m >= 8), sweep=(4 <= m < 7))
